@@ -139,6 +139,35 @@ func representable(r *rand.Rand, src, kind string) (float64, bool) {
 	return v, true
 }
 
+// integers beyond 2^53 between the 64-bit integer kinds (a conversion that goes through float64 loses them)
+func bigFor(r *rand.Rand, src, kind string) (int64, bool) {
+	is64 := func(k string) bool { return k == "int64" || k == "int" || k == "uint64" || k == "uint" }
+	if !is64(src) || !is64(kind) || r.Intn(3) != 0 {
+		return 0, false
+	}
+	return []int64{1<<53 + 1, 1700000000123456789, math.MaxInt64, math.MaxInt64 - 2, 1<<62 + 12345}[r.Intn(5)], true
+}
+
+func mkInt(kind string, v int64) reflect.Value {
+	x := reflect.New(kindType[kind]).Elem()
+	if classOf(kind) == "uint" {
+		x.SetUint(uint64(v))
+	} else {
+		x.SetInt(v)
+	}
+	return x
+}
+
+func exactEq(got reflect.Value, v int64) bool {
+	switch got.Kind() {
+	case reflect.Int, reflect.Int8, reflect.Int16, reflect.Int32, reflect.Int64:
+		return got.Int() == v
+	case reflect.Uint, reflect.Uint8, reflect.Uint16, reflect.Uint32, reflect.Uint64:
+		return v >= 0 && got.Uint() == uint64(v)
+	}
+	return false
+}
+
 func mk(kind string, f float64, s string, b bool) reflect.Value {
 	t := kindType[kind]
 	v := reflect.New(t).Elem()
@@ -382,7 +411,17 @@ func runCell(c *Cell) []result {
 		}
 		sv, bv := []string{"new", "", "x y"}[r.Intn(3)], r.Intn(2) == 0
 		srcVal = mk(c.Src, f, sv, bv)
+		big, isBig := bigFor(r, c.Src, c.Kind)
+		if isBig && (c.What == "store" || c.What == "call") {
+			srcVal = mkInt(c.Src, big)
+		} else {
+			isBig = false
+		}
 		switch {
+		case isBig && c.Src == "int64" && r.Intn(2) == 0:
+			srcText = strconv.FormatInt(big, 10)
+		case isBig:
+			srcText = "src"
 		case c.Src == "int64" && r.Intn(2) == 0:
 			srcText = fmt.Sprint(int64(f))
 		case c.Src == "float64" && r.Intn(2) == 0:
@@ -430,7 +469,9 @@ func runCell(c *Cell) []result {
 			}
 			got := get()
 			okv := false
-			if isNum {
+			if isBig {
+				okv = exactEq(got, big)
+			} else if isNum {
 				g, _ := num(got)
 				okv = g == f
 			} else if classOf(c.Kind) == "str" {
@@ -558,7 +599,9 @@ func runCell(c *Cell) []result {
 				continue
 			}
 			okv := false
-			if isNum {
+			if isBig {
+				okv = exactEq(got[1], big) && got[1].Kind() == pt.Kind()
+			} else if isNum {
 				g, _ := num(got[1])
 				okv = g == f && got[1].Kind() == pt.Kind()
 			} else if classOf(c.Kind) == "str" {
